@@ -8,7 +8,7 @@ Stage 1  TLC enumerates MC_Orderer (spec/Orderer.tla): every digraph on <= MaxCl
          exported (element heap, roots, predicted outcome, verdict of R_C11 on the model).
          A second TLC run checks liveness (Terminates under WF, no state constraint).
 Stage 2  every exported heap is realised as REAL classes / elements and `orderer(*roots)` is
-         consumed under a wall-clock timeout; the real outcome is compared with the prediction.
+         consumed under a CPU-time limit (ITIMER_VIRTUAL: independent of machine load); the real outcome is compared with the prediction.
          Acyclic heaps are realised twice: by assignment after creation, and by declaration in
          dependency order (Object.inline with keyword arguments).
 Stage 3  outcomes that differ from the prediction (drift) are adjudicated by TLC against the
@@ -365,7 +365,7 @@ def build_declared(heap):
 
 
 def observe(objs, heap, roots):
-    """list(orderer(*roots)) under a wall-clock timeout -> dict(kind, out)."""
+    """list(orderer(*roots)) under a CPU-time limit (ITIMER_VIRTUAL: independent of machine load) -> dict(kind, out)."""
     from statham.serializers.orderer import orderer
     from statham.schema.exceptions import SchemaParseError
     names = {id(o): heap[i - 1]["name"] for i, o in objs.items() if heap[i - 1]["cls"] == "Object"}
@@ -376,8 +376,8 @@ def observe(objs, heap, roots):
         out = []
         kind = None
         msg = ""
-        old = signal.signal(signal.SIGALRM, _on_alarm)
-        signal.setitimer(signal.ITIMER_REAL, seconds)
+        old = signal.signal(signal.SIGVTALRM, _on_alarm)
+        signal.setitimer(signal.ITIMER_VIRTUAL, seconds)
         try:
             try:
                 for cls in orderer(*args):
@@ -397,8 +397,8 @@ def observe(objs, heap, roots):
         except _Timeout:                   # alarm fired between the inner handlers
             kind = "timeout"
         finally:
-            signal.setitimer(signal.ITIMER_REAL, 0)
-            signal.signal(signal.SIGALRM, old)
+            signal.setitimer(signal.ITIMER_VIRTUAL, 0)
+            signal.signal(signal.SIGVTALRM, old)
         return dict(kind=kind, out=out, msg=msg)
 
     ob = attempt(CALL_TIMEOUT)
